@@ -161,14 +161,92 @@ def check(x, res, tempo):
     return None
 
 
+PROBE = r"""
+import sys, json
+sys.path.insert(0, sys.argv[1]); sys.path.insert(0, sys.argv[2])
+import chartparse.chart
+from verif.props import C11
+print(json.dumps(C11.answers(json.load(sys.stdin))))
+"""
+
+
+def answers(cases):
+    """every (tick, hint) query of every map: [µs, index] or 'VE' — run in-process and, identically, in interpreters started with
+    other switches"""
+    from datetime import timedelta
+    us = timedelta(microseconds=1)
+    res_ = []
+    for res, tempo, qs in cases:
+        be = C01.build_bpm_events(res, [tuple(t) for t in tempo])
+        row = []
+        for tick, h in qs:
+            try:
+                ts, idx = be.timestamp_at_tick(tick, start_iteration_index=h)
+                row.append([ts // us, idx])
+            except ValueError:
+                row.append("VE")
+            except Exception as e:  # noqa: BLE001
+                row.append("X:" + type(e).__name__)
+        res_.append(row)
+    return res_
+
+
+def switches(ctx, out):
+    """a hint beyond the governing event is refused — also when the interpreter runs with -O / -OO (checks written as assertions
+    or under `if __debug__` vanish there) or with warnings as errors"""
+    import json
+    import subprocess
+    rng = ctx.sub("switches")
+    cases = []
+    for _ in range(ctx.n(25, 1500)):
+        res, tempo = C01.rand_map(rng, rng.choice([2, 3, 5]))
+        last = tempo[-1][0]
+        qs = []
+        for _ in range(12):
+            tk = rng.choice([t for t, _ in tempo] + [max(0, t - 1) for t, _ in tempo] + [rng.randint(0, last + 50), -1])
+            qs.append((tk, rng.randint(0, len(tempo))))
+        cases.append((res, tempo, qs))
+    here = answers(cases)
+    for flags in (("-O",), ("-OO",), ("-W", "error")):
+        p = subprocess.run(["/venv/bin/python", *flags, "-c", PROBE, str(fw.REPO), str(fw.ROOT)], input=json.dumps(cases).encode(),
+                           stdout=subprocess.PIPE, stderr=subprocess.PIPE, timeout=600)
+        try:
+            there = json.loads(p.stdout.decode().strip().splitlines()[-1])
+        except Exception:  # noqa: BLE001
+            out.violation("switch-" + flags[-1], f"python {' '.join(flags)}: the query probe crashed: {p.stderr.decode()[-300:]}",
+                          {"op": "switches", "flags": list(flags), "cases": cases[:3]}, observed="crash", promised="same answers as with default switches")
+            continue
+        for (res, tempo, qs), a, b in zip(cases, here, there):
+            out.case("W" + fw.h([flags, res, tempo, qs]), True, None, tags=["switch" + flags[-1]])
+            if a != b:
+                k = next(i for i, (x, y) in enumerate(zip(a, b)) if x != y)
+                out.violation("switch-" + fw.h([flags, res, tempo, qs[k]]), f"python {' '.join(flags)}: timestamp_at_tick({qs[k][0]}, start_iteration_index={qs[k][1]}) on "
+                              f"res={res} map={tempo[:5]} answers {b[k]}, with default switches {a[k]}",
+                              {"op": "switches", "flags": list(flags), "cases": [[res, tempo, [qs[k]]]]}, observed=str(b[k]), promised=str(a[k]))
+                break
+
+
 def slice(ctx: fw.Ctx) -> fw.Outcome:
     out = fw.Outcome(RULE)
     exhaustive(ctx, out)
     charts(ctx, out)
+    switches(ctx, out)
     return out
 
 
 def replay(ctx: fw.Ctx, data: dict):
+    if data.get("op") == "switches":
+        import json
+        import subprocess
+        cases = data["cases"]
+        here = answers(cases)
+        p = subprocess.run(["/venv/bin/python", *data["flags"], "-c", PROBE, str(fw.REPO), str(fw.ROOT)], input=json.dumps(cases).encode(),
+                           stdout=subprocess.PIPE, stderr=subprocess.PIPE, timeout=600)
+        try:
+            there = json.loads(p.stdout.decode().strip().splitlines()[-1])
+        except Exception:  # noqa: BLE001
+            return True, p.stderr.decode()[-200:]
+        return here != there, f"{there} vs {here}"
     if data["op"] == "hint":
         tempo = [tuple(x) for x in data["tempo"]]
         be = C01.build_bpm_events(data["res"], tempo)
